@@ -16,12 +16,14 @@ ASSUMPTIONS = ["files used for the pass-keeps clause carry no retry clause (the 
 
 def make_case(rng):
     c = updfam.gen_case(rng, with_includes=(rng.random() < 0.2))
-    # drop retry clauses so that the verdict run issues the same requests as the update
+    # drop retry clauses so that the verdict run issues the same requests as the update - except in a third of the cases, which keep
+    # them and are checked for the frame clauses only (a retry clause must survive every rewrite, also query -> statement count)
     import re
-    for f in c["files"]:
+    keep_retry = rng.random() < 0.35
+    for f in ([] if keep_retry else c["files"]):
         if f[1] == "file":
             f[2] = re.sub(r"[ \t 　 ]+retry[ \t 　 ]+\d+[ \t 　 ]+backoff[ \t 　 ]+\S+", "", f[2])
-    c["judge_before"] = True
+    c["judge_before"] = not keep_retry
     # halts across include boundaries (D18): a halt inside an included file, or in the main file before the include line
     if len(c["files"]) > 1 and rng.random() < 0.5:
         if rng.random() < 0.5:
@@ -39,7 +41,11 @@ def corpus():
     base = {"main": "main.slt", "answers": [["rows", "I", [["2"]]]] * 4, "default_answer": ["rows", "I", [["2"]]], "sys": [], "sys_default": ["exit", 0, "", ""],
             "sep": " ", "strict_cols": False, "judge_before": True}
     stale = "query I\nselect 2\n----\nstale\n"
-    return [dict(base, files=[["main.slt", "file", "include inc/a.slt\n\n" + stale], ["inc/a.slt", "file", "halt\n"]], meta={"src": "witness D18 halt inside include"}),
+    eng = dict(base, engine_name="mockdb")
+    return [dict(eng, files=[["main.slt", "file", "skipif mockdb\n" + stale + "\nonlyif mockdb\n" + stale]], meta={"src": "engine name guards on the first records"}),
+            dict(eng, files=[["main.slt", "file", "onlyif other\n" + stale + "\nconnection c2\nskipif mockdb\nstatement error stale\nselect 1\n"]], meta={"src": "engine name guards, named connection"}),
+            dict(base, files=[["main.slt", "file", "query I retry 3 backoff 1ms\nupdate t\n----\nstale\n"]], answers=[["complete", 2]], meta={"src": "retry clause on a query answered with a completion"}),
+            dict(base, files=[["main.slt", "file", "include inc/a.slt\n\n" + stale], ["inc/a.slt", "file", "halt\n"]], meta={"src": "witness D18 halt inside include"}),
             dict(base, files=[["main.slt", "file", "halt\n\ninclude inc/a.slt\n"], ["inc/a.slt", "file", stale]], meta={"src": "witness D18 halt before include"})]
 
 
